@@ -12,7 +12,11 @@ import (
 	"testing/synctest"
 	"time"
 
+	"github.com/prometheus/common/promslog"
+
+	"github.com/prometheus/alertmanager/featurecontrol"
 	"github.com/prometheus/alertmanager/internal/verif/rep"
+	"github.com/prometheus/alertmanager/matcher/compat"
 	"github.com/prometheus/alertmanager/internal/verif/seqx"
 )
 
@@ -249,6 +253,7 @@ func (s *fScenario) explore(t *testing.T) {
 
 func fInit(t *testing.T) {
 	installHook()
+	compat.InitFromFlags(promslog.NewNopLogger(), featurecontrol.NoopFlags{}) // as cmd/alertmanager/main.go does
 	base := os.Getenv("TMPDIR")
 	if base == "" {
 		base = os.TempDir()
